@@ -208,6 +208,9 @@ WindowsOK(f, cid, base, sparse) ==
   \A w \in SeqSet(f.wins) :
     \/ RunsOK(w.runs, cid, PAdd(base, w.rel), sparse)
     \/ base = PZero /\ cid \in SeqSet(w.alt)     \* content without self-identifying pattern: compared at the same offset
+    \* windows too short to identify themselves: the harness verified the bytes at an offset of its choosing (altAt.off);
+    \* it counts only if that is the offset expected here
+    \/ w.altAt.off = PAdd(base, w.rel) /\ cid \in SeqSet(w.altAt.srcs)
 
 RECURSIVE ExtentsOK(_, _, _, _)
 ExtentsOK(recs, cid, base, sparse) ==
